@@ -87,6 +87,12 @@ def real_all(evs, max_order, mode="auto", corr_first=None, do_poison=None, conta
     else:
         m1 = MultiParticlePtCorrelations(max_order=max_order)
         m2 = MultiParticlePtCorrelations(max_order=max_order)
+        via = _MODE_RNG.random()   # an estimator that went through copy / deepcopy / pickle must behave like the original
+        if via < 0.06:
+            m1, m2 = __import__("copy").deepcopy(m1), __import__("copy").copy(m2)
+        elif via < 0.12:
+            pk = __import__("pickle")
+            m1, m2 = pk.loads(pk.dumps(m1)), pk.loads(pk.dumps(m2))
     def events_arg():
         """the sample as the caller may hold it: a list, a tuple, or a one-shot iterator over the events (a generator
         streaming events from a file); `container` fixes the kind for replays"""
@@ -183,8 +189,15 @@ def exact_cumulants(C):
 
 def oracle_check(evs, max_order, rel=1e-6, mode="fresh", corr_first=None, do_poison=None, container=None):
     """Returns None or (key, what, detail) when the *real code* disagrees with the definition."""
+    import random as _random
+    env0 = (_random.getstate(), np.random.get_state()[1].tobytes(), np.geterr(), np.get_printoptions())
     try:
         c, kap = real_all(evs, max_order, mode, corr_first, do_poison, container)
+        env1 = (_random.getstate(), np.random.get_state()[1].tobytes(), np.geterr(), np.get_printoptions())
+        if env1 != env0:
+            what = [n for n, a, b in zip(("random-state", "numpy-random-state", "numpy-error-state", "print-options"), env0, env1) if a != b]
+            return ("environment-changed:" + "+".join(what), "mean_pT_correlations / mean_pT_cumulants (compute_error=False) left "
+                    + ", ".join(what) + " changed", dict(changed=what))
     except Exception as e:   # an admissible sample must not make the estimator raise
         if not any(len(ev) >= 1 for ev in evs):
             return None
